@@ -11,11 +11,15 @@ MANIFEST = {
             "equal constants get equal offsets for ever, placed constants agree wherever they overlap, a refused add changes nothing, every "
             "image has length = size, carries each constant at its offset, is zero elsewhere, and the reported alignment is a multiple of every "
             "constant's size. The model is tied to the real ConstPool by running both on the same histories and comparing every answer and the "
-            "complete internal state (gap lists, trees in traversal order); the Lean monitor judges every answer of the real code.",
+            "complete internal state (gap lists, trees in traversal order); the Lean monitor judges every answer of the real code. "
+            "Further theorems: embed_const_pool is refused exactly for invalid/bound labels and otherwise binds the label at a multiple of the alignment "
+            "in front of a correct image; every constant a Compiler hands out (local or global scope, any number of functions) is found at label+offset "
+            "in the finalized section, aligned to its size.",
     "note": "Trusted: Lean kernel; Spec/ConstPool.lean as the meaning of the property; harness/driver/diff. Abstracted: the red-black tree is an "
             "ordered association list (C18), arena allocation never fails (C15), Node::_offset is Nat not uint32 (pools < 4 GiB). "
-            "embed_const_pool is modelled for its data effect (align + bind + fill) on x86/a64 Assembler and Builder; "
-            "BaseCompiler::_new_const is exercised by the harness and judged by the monitor only (tested, not proved).",
+            "embed_const_pool (label checks, align, bind, fill; x86/a64 Assembler and Builder) and the Compiler's constants (_new_const, local pool "
+            "at end_func, GlobalConstPoolPass, serialisation) are modelled in Model/ConstPoolEmit.lean, tied by the es/cc lines and proved "
+            "(compile_const_in_image). Node::_offset uint32: Model/ConstPool32.lean, equal to the Nat model below 4 GiB (proved), diverging witness beyond.",
 }
 MODS = ["AsmjitVerif.Props.C19"]
 VALID = (1, 2, 4, 8, 16, 32, 64)
@@ -93,7 +97,26 @@ def gen_history(rng, maxlen):
     return ops
 
 
+def rand_es(rng):
+    """embed sequence with label checks: n = new label, d: data, b<k> bind, p<k> embed the pool at label k"""
+    items, nl = [], 0
+    for _ in range(rng.randrange(1, 9)):
+        r = rng.random()
+        if r < 0.3 or nl == 0 and r < 0.6:
+            items.append("n")
+            nl += 1
+        elif r < 0.5:
+            items.append("d:" + hx(bytes(rng.getrandbits(8) for _ in range(rng.choice((1, 2, 3, 5, 8, 13, 16, 33))))))
+        elif r < 0.62:
+            items.append("b%d" % rng.randrange(0, nl + 2))
+        else:
+            items.append("p%d" % (rng.randrange(0, nl + 1) if rng.random() < 0.85 else nl + rng.randrange(0, 3)))
+    return "es %s %s %s" % (rng.choice(("x86", "a64")), rng.choice(("asm", "bld")), " ".join(items))
+
+
 def rand_embed(rng):
+    if rng.random() < 0.5:
+        return rand_es(rng)
     pre = bytes(rng.getrandbits(8) for _ in range(rng.choice((0, 1, 2, 3, 4, 7, 8, 15, 16, 17, 31, 33, 63, 64, 65))))
     return "embed %s %s %s" % (rng.choice(("x86", "a64")), rng.choice(("asm", "bld")), hx(pre))
 
@@ -133,19 +156,53 @@ def gen_ops(rng, tier):
 # ------------------------------------------------------------------------------------------------
 
 def mon_lines(ops, impl):
+    """[(op index, monitor line)]; an op may need several monitor lines (es) or none (dump)"""
     out = []
-    for o, r in zip(ops, impl):
+    for i, (o, r) in enumerate(zip(ops, impl)):
         w = o.split()
         if w[0] in ("new", "reset"):
-            out.append("m-new")
+            out.append((i, "m-new"))
         elif w[0] == "add":
-            out.append("m-add %s %s" % (w[1], r))
+            out.append((i, "m-add %s %s" % (w[1], r)))
         elif w[0] == "fill":
-            out.append("m-fill " + r)
+            out.append((i, "m-fill " + r))
         elif w[0] == "embed":
-            out.append("m-embed %s %s %s %s" % (w[1], w[2], w[3], r))
-        else:
-            out.append("# " + w[0])          # dump: no judgement (comment line, produces no output)
+            out.append((i, "m-embed %s %s %s %s" % (w[1], w[2], w[3], r)))
+        elif w[0] == "es":
+            out += [(i, l) for l in es_monitor_lines(w, r)]
+    return out
+
+
+def run_monitor(ops, impl):
+    """-> list of (op index, BAD text) or None on protocol failure"""
+    ml = mon_lines(ops, impl)
+    mon, rc, err = vlib.run_model("C19", [l for _, l in ml])
+    if rc != 0 or len(mon) != len(ml):
+        return None
+    return [(ml[k][0], m) for k, m in enumerate(mon) if m != "good"]
+
+
+def es_monitor_lines(w, r):
+    """every successful `p<k>` of an `es` line must have produced a correct image at an aligned label"""
+    parts = r.split("||")
+    if not r.startswith("es") or len(parts) != 3:
+        return ["m-fill malformed " + r[:60].replace(" ", "_")]
+    answers = [x.strip() for x in parts[0][2:].split(" | ")] if parts[0][2:].strip() else []
+    items = w[3:]
+    labs = dict(x.split("=") for x in parts[1].split())
+    t = parts[2].split()
+    size, align, sec = t[0], t[1], ("" if t[2] == "-" else t[2])
+    out = []
+    if len(answers) != len(items):
+        return ["m-fill malformed " + r[:60].replace(" ", "_")]
+    for it, an in zip(items, answers):
+        if it[0] == "p" and an == "ok":
+            off = labs.get("L" + it[1:], "unbound")
+            if off == "unbound":
+                out.append("m-fill embedded-pool-label-unbound")
+            else:
+                end = int(off) + int(size)
+                out.append("m-embed es es - emb %s %s %s %s" % (off, size, align, sec[:2 * end] or "-"))
     return out
 
 
@@ -155,44 +212,102 @@ def judge(h, ops):
     if rc != 0 or len(impl) != len(ops):
         head = [l for l in err.splitlines() if "ERROR:" in l or "runtime error" in l][:2]
         return impl, [], "rc=%d %s %s" % (rc, " | ".join(head)[:600], err[-300:])
-    ml = mon_lines(ops, impl)
-    mon, rc2, err2 = vlib.run_model("C19", ml)
-    idx = [i for i, l in enumerate(ml) if not l.startswith("#")]
-    bad = [(idx[k], m) for k, m in enumerate(mon) if m != "good"]
+    bad = run_monitor(ops, impl)
+    if bad is None:
+        return impl, [], "monitor protocol failure"
     return impl, bad, None
 
 
-def judge_compile(h, case):
-    """`compile` line through BaseCompiler::_new_const; the answers are split per pool scope and judged by the Lean monitor.
-    Returns None when good, else a text starting with a stable class word."""
-    r, rc, err = vlib.run_lines([str(h)], case)
-    if rc != 0 or len(r) != 1:
-        return "crash rc=%d %s" % (rc, err[-800:])
-    a = r[0]
-    if not a.startswith("cc "):
-        return "compile-failed " + a
-    parts = a[3:].split(" || ")
+def cc_monitor_lines(case, answer):
+    """monitor lines (one group per pool node) for a `cc` line and the implementation's answer; None = malformed answer"""
+    if not answer.startswith("cc"):
+        return None
+    parts = answer[2:].split("||")
     if len(parts) != 3:
-        return "compile-failed " + a
-    items = case[0].split()[2:]
-    answers = [x.strip() for x in parts[0].split(" | ")]
+        return None
+    items = case.split()[2:]
+    answers = [x.strip() for x in parts[0].split(" | ")] if parts[0].strip() else []
     if len(answers) != len(items):
-        return "compile-failed " + a
-    for scope, emb in (("l", parts[1][2:]), ("g", parts[2][2:])):
-        ml = ["m-new"]
-        for it, an in zip(items, answers):
-            if it[0] == scope:
-                ml.append("m-add %s %s" % (it[2:], an[2:]))
-        if len(ml) == 1:
+        return None
+    sec = parts[2].strip()
+    secb = "" if sec == "-" else sec
+    pools = {}
+    for pd in [x.strip() for x in parts[1].split(" | ") if x.strip()]:
+        w = pd.split()
+        if len(w) != 4:
+            return None
+        pools[w[0]] = w[1:]
+    groups = {}
+    for it, an in zip(items, answers):
+        if it[0] in "lg" and it[1:2] == ":":
+            w = an.split()
+            if w[0] == "ok" and len(w) == 6:
+                groups.setdefault(w[1], ["m-new"]).append("m-add %s ok %s" % (it[2:], " ".join(w[2:])))
+            elif w[0] == "err" and len(w) == 6:
+                groups.setdefault(w[2], ["m-new"]).append("m-add %s err %s %s" % (it[2:], w[1], " ".join(w[3:])))
+            else:
+                return None
+    # which pools MUST be in the section after finalize (meaning of the property, not of the implementation): a global pool
+    # always; a local pool if an end_func succeeded after the pool came into being
+    must = set()
+    for k, (it, an) in enumerate(zip(items, answers)):
+        w = an.split()
+        if it[0] in "lg" and it[1:2] == ":" and len(w) == 6:
+            if w[0] != "ok":
+                continue                      # a refused constant obliges nobody to emit its pool
+            pk = w[1]
+            if it[0] == "g" or any(i2 == "E" and a2 == "ok" for i2, a2 in list(zip(items, answers))[k + 1:]):
+                must.add(pk)
+    out = []
+    for pk, lines in groups.items():
+        if pk not in pools:
+            return None
+        off, size, align = pools[pk]
+        if off == "unbound" and pk in must:
+            lines.append("m-fill pool-never-embedded")
+        if off != "unbound":
+            end = int(off) + int(size)
+            lines.append("m-embed cc cc - emb %s %s %s %s" % (off, size, align, secb[:2 * end] or "-"))
+        out.append(lines)
+    return out
+
+
+def judge_compile_all(h, cases):
+    """returns (impl answers, model answers, [(case, text)] monitor failures / crashes)"""
+    bad = []
+    impl, rc, err = vlib.run_lines([str(h)], cases)
+    if rc != 0 or len(impl) != len(cases):
+        # find the crashing case
+        for c in cases:
+            r, rc1, err1 = vlib.run_lines([str(h)], [c], timeout=60)
+            if rc1 != 0 or len(r) != 1:
+                head = [l for l in err1.splitlines() if "ERROR:" in l or "runtime error" in l][:2]
+                bad.append((c, "crash rc=%d %s" % (rc1, " | ".join(head)[:500])))
+                break
+        impl = []
+        for c in cases:
+            r, rc1, _ = vlib.run_lines([str(h)], [c], timeout=60)
+            impl.append(r[0] if rc1 == 0 and len(r) == 1 else "crash")
+    model, rc2, err2 = vlib.run_model("C19", cases)
+    ml, owner = [], []
+    for c, a in zip(cases, impl):
+        if a == "crash":
             continue
-        if not emb.startswith("emb "):
-            return "pool-not-embedded " + emb
-        ml.append("m-embed cc cc - " + emb)
+        g = cc_monitor_lines(c, a)
+        if g is None:
+            bad.append((c, "malformed-or-failed " + a[:300]))
+            continue
+        for lines in g:
+            ml += lines
+            owner += [c] * len(lines)
+    if ml:
         mon, _, _ = vlib.run_model("C19", ml)
-        for l, m in zip(ml, mon):
-            if m != "good":
-                return "monitor %s on %s" % (m, l[:200])
-    return None
+        seen = set()
+        for l, m, c in zip(ml, mon, owner):
+            if m != "good" and c not in seen:
+                seen.add(c)
+                bad.append((c, "monitor %s on %s" % (m, l[:200])))
+    return impl, model, bad
 
 
 def classify(ops, impl, dist):
@@ -239,8 +354,11 @@ def run(res):
     res.assumptions += [
         "ConstPool::Tree (red-black tree) = association list in memcmp order (balance and memory safety: C18)",
         "arena allocation inside add never fails (C15); Node::_offset is uint32 in C++, Nat in the model (pool < 4 GiB)",
-        "BaseCompiler::_new_const / GlobalConstPoolPass are exercised by the harness and judged by the monitor, not modelled",
-        "embed_const_pool is modelled for its effect on the section bytes and the label offset (x86 pad 0xCC, a64 pad 0x00)"]
+        "Compiler functions are `void f()` without frame: prolog empty, epilog `ret` (x86 c3, a64 c0035fd6) - bytes the model takes as parameters; "
+        "nested add_func is not modelled (never generated)",
+        "embed_const_pool / bind are modelled for their effect on the section bytes and the label table (x86 pad 0xCC, a64 pad 0x00); "
+        "buffer growth failure (C15) is not modelled",
+        "Node::_offset uint32 / int32 displacement: add32 = add proved below 4 GiB; sizes beyond are proved on the model only (witness theorems)"]
     broken = []
 
     ok, out = vlib.lean_stage(res, PID, MODS)
@@ -254,7 +372,7 @@ def run(res):
 
     h = vlib.build_harness("c19")
     hists = gen_ops(rng, res.tier)
-    cc_hists = gen_compiler_cases(rng, res.tier)
+    cc_cases = gen_compiler_cases(rng, res.tier)
     ops = [o for hh in hists for o in hh]
     starts, p = [], 0
     for hh in hists:
@@ -293,39 +411,51 @@ def run(res):
         return
 
     # monitor over the whole implementation trace (always)
-    ml = mon_lines(ops, impl)
-    mon, rc3, err3 = vlib.run_model("C19", ml)
-    idx = [i for i, l in enumerate(ml) if not l.startswith("#")]
-    if rc3 != 0 or len(mon) != len(idx):
-        res.violation("monitor protocol failure rc=%d %d/%d %s" % (rc3, len(mon), len(idx), err3[-500:]), {}, False, key="protocol")
+    bad = run_monitor(ops, impl)
+    if bad is None:
+        res.violation("monitor protocol failure", {}, False, key="protocol")
         return
-    bad = [(idx[k], m) for k, m in enumerate(mon) if m != "good"]
     diffs = [i for i in range(len(ops)) if impl[i] != model[i]]
 
-    # compiler path (_new_const): judged by the monitor only
-    cc_bad = []
-    cc_eval = 0
-    for case in cc_hists:
-        cc_eval += 1
-        verdict = judge_compile(h, case)
-        if verdict:
-            cc_bad.append((case, verdict))
+    # compiler path (_new_const, end_func, GlobalConstPoolPass, serialisation): correspondence + monitor
+    cc_impl, cc_model, cc_bad = judge_compile_all(h, cc_cases)
+    cc_diffs = [k for k in range(len(cc_cases)) if k >= len(cc_model) or k >= len(cc_impl) or cc_impl[k] != cc_model[k]]
 
     dist = {}
     classify(ops, impl, dist)
-    dist["compile-cases"] = len(cc_hists)
-    res.coverage["evaluations"] = len(ops) + cc_eval
-    res.coverage["distinct_nontrivial"] = len({(tuple(hh)) for hh in hists if any(o.startswith("add") for o in hh)})
+    dist["cc:cases"] = len(cc_cases)
+    for c, a in zip(cc_cases, cc_impl):
+        for it, an in zip(c.split()[2:], [x.strip() for x in a[2:].split("||")[0].split(" | ")]):
+            k = "cc:%s:%s" % (it[0], " ".join(an.split()[:2]) if an.startswith("err") else "ok")
+            dist[k] = dist.get(k, 0) + 1
+        if " unbound " in a:
+            dist["cc:pool-never-embedded"] = dist.get("cc:pool-never-embedded", 0) + 1
+    for o, r in zip(ops, impl):
+        if o.startswith("es "):
+            for an in [x.strip() for x in r[2:].split("||")[0].split(" | ")]:
+                dist["es:" + an] = dist.get("es:" + an, 0) + 1
+    n_adds = sum(1 for o in ops if o.startswith("add "))
+    res.coverage["evaluations"] = len(ops) + len(cc_cases)
+    res.coverage["distinct_nontrivial"] = len({(tuple(hh)) for hh in hists if any(o.startswith("add") for o in hh)}) + len(set(cc_cases))
     res.coverage["rule"] = ("histories = bounded-exhaustive add sequences over 3 nested patterns x 7 sizes (length<=2 all, 3 sampled in quick; <=3 all, 4 "
                             "sampled in thorough) + seeded random histories (length<=200, a few <=2000) over pattern slices (halves/quarters of wider "
-                            "constants, repeated halves), invalid sizes, interleaved fill/dump/reset/embed; non-trivial = distinct history with >=1 add; "
+                            "constants, repeated halves), invalid sizes, interleaved fill/dump/reset/embed/es (embed sequences with new/bound/invalid "
+                            "labels, Assembler and Builder, x86 and a64); cc = Compiler programs (0-3 functions, local/global constants and data inside "
+                            "and outside functions, missing/surplus end_func); non-trivial = distinct history with >=1 add or distinct cc program; "
                             "every line compared impl vs model (dump = whole internal state) and judged by the Lean monitor")
     res.coverage["exhaustive"] = False
     res.coverage["input_distribution"] = dist
     n = len(ops)
-    res.add_samples([{"op": ops[i][:200], "impl": impl[i][:300], "model": model[i][:300]} for i in (1, n // 3, n // 2, n - 2, n - 1)])
-    res.coverage["traces_validated_against_impl"] = len(hists)
+    if n >= 3:
+        res.add_samples([{"op": ops[i][:200], "impl": impl[i][:300], "model": model[i][:300]} for i in (1, n // 3, n // 2, n - 2, n - 1)])
+    if cc_cases and cc_impl:
+        res.add_samples([{"op": cc_cases[0][:300], "impl": cc_impl[0][:400], "model": (cc_model[0] if cc_model else "")[:400]}], limit=7)
+    res.coverage["traces_validated_against_impl"] = len(hists) + len(cc_cases)
 
+    # -- classification (coordinator note: nothing below may hide anything else) ---------------------------------------
+    if n_adds == 0 or not cc_cases:
+        res.violation("empty run: %d add lines, %d cc programs executed" % (n_adds, len(cc_cases)), {}, False, key="empty-run")
+    explained = set()        # histories / cc programs in which the monitor already names a failing input
     if bad:
         i, m = bad[0]
         hh = hist_of(i)
@@ -338,12 +468,24 @@ def run(res):
         im, b2, _ = judge(h, small)
         res.violation("ConstPool violates C19 on the real code: monitor says %s (%d failing answers in this run); shrunk history: %s -> %s"
                       % (m, len(bad), small, im), {"ops": small, "impl": im, "monitor": [x[1] for x in b2]}, True, key="mon:" + reason)
-    elif cc_bad:
+        import bisect
+        explained = {bisect.bisect_right(starts, i) - 1 for i, _ in bad}
+    if cc_bad:
         case, a = cc_bad[0]
-        res.violation("BaseCompiler::_new_const / pool embedding violates C19: %s on %s" % (a, case), {"ops": case, "impl": a}, True,
-                      key="compile:" + " ".join(a.split()[:3]))
-    elif diffs:
-        i = diffs[0]
+
+        def cc_is_bad(items):
+            c = " ".join(case.split()[:2] + items)
+            return bool(judge_compile_all(h, [c])[2])
+        small = vlib.ddmin(case.split()[2:], cc_is_bad, max_tests=200)
+        c = " ".join(case.split()[:2] + small)
+        ci, cm, cb = judge_compile_all(h, [c])
+        res.violation("Compiler constant (_new_const / end_func / GlobalConstPoolPass / serialisation) violates C19: %s; shrunk: %s -> %s (%d failing programs)"
+                      % (cb[0][1] if cb else a, c, ci, len(cc_bad)), {"ops": [c], "impl": ci, "verdict": [x[1] for x in cb]}, True,
+                      key="cc:" + " ".join(a.split()[:3]))
+    import bisect
+    unexplained = [i for i in diffs if (bisect.bisect_right(starts, i) - 1) not in explained]
+    if unexplained:
+        i = unexplained[0]
         hh = hist_of(i)
 
         def differs(c):
@@ -354,29 +496,65 @@ def run(res):
         a, _, _ = vlib.run_lines([str(h)], small)
         b, _, _ = vlib.run_model("C19", small)
         res.violation("correspondence Model/ConstPool.lean ~ constpool.cpp differs (%d lines) at %r: impl=%s model=%s; the property monitor accepts "
-                      "every answer of the real code; shrunk: %s" % (len(diffs), ops[i][:100], impl[i][:200], model[i][:200], small),
-                      {"ops": small, "impl": a, "model": b, "unchecked": "correspondence Model/ConstPool.lean ~ constpool.cpp"}, False, key="corr")
-    elif broken:
+                      "the answers of the real code in these histories; shrunk: %s" % (len(unexplained), ops[i][:100], impl[i][:200], model[i][:200], small),
+                      {"ops": small, "impl": a, "model": b, "unchecked": "correspondence Model/ConstPool.lean + ConstPoolEmit.lean ~ constpool.cpp / embed_const_pool"},
+                      False, key="corr")
+    cc_bad_cases = {c for c, _ in cc_bad}
+    cc_unexplained = [k for k in cc_diffs if cc_cases[k] not in cc_bad_cases]
+    if cc_unexplained:
+        k = cc_unexplained[0]
+        res.violation("correspondence Model/ConstPoolEmit.lean ~ BaseCompiler differs (%d programs) at %r: impl=%s model=%s; the monitor accepts the real code's answers"
+                      % (len(cc_unexplained), cc_cases[k], cc_impl[k][:300] if k < len(cc_impl) else None, cc_model[k][:300] if k < len(cc_model) else None),
+                      {"ops": [cc_cases[k]], "impl": cc_impl[k] if k < len(cc_impl) else None, "model": cc_model[k] if k < len(cc_model) else None,
+                       "unchecked": "correspondence Model/ConstPoolEmit.lean ~ compiler.cpp"}, False, key="corr-cc")
+    if broken:
         res.violation("proof obligation no longer checks: " + " | ".join(broken)[:1500], {"unchecked": broken}, False, key="obligation")
 
 
 def gen_compiler_cases(rng, tier):
+    """`cc` lines: functions (F .. E) with local/global constants and data inside and outside functions, missing / surplus
+    end_func; never a nested add_func (not modelled)."""
     cases = []
-    n = 60 if tier == "quick" else 1500
+    n = 400 if tier == "quick" else 12000
     for _ in range(n):
-        pats = patterns(rng, 3)
-        k = rng.randrange(1, 12)
+        pats = patterns(rng, rng.choice((1, 3)))
         items = []
-        for _ in range(k):
-            c = pick_const(rng, pats)
-            items.append("%s:%s" % (rng.choice("lg"), hx(c)))
-        cases.append(["compile %s %s" % (rng.choice(("x86", "a64")), " ".join(items))])
+
+        def consts(k, scopes):
+            for _ in range(k):
+                r = rng.random()
+                if r < 0.2:
+                    items.append("d:" + hx(bytes(rng.getrandbits(8) for _ in range(rng.choice((1, 2, 3, 4, 7, 8, 9, 16))))))
+                else:
+                    items.append("%s:%s" % (rng.choice(scopes), hx(pick_const(rng, pats))))
+        if rng.random() < 0.2:
+            consts(rng.randrange(1, 4), "lgg")        # constants before any function
+        for _f in range(rng.choice((0, 1, 1, 2, 3))):
+            if rng.random() < 0.05:
+                items.append("E")                      # end_func without a function
+            items.append("F")
+            consts(rng.randrange(0, 10), "llg")
+            if rng.random() < 0.93:
+                items.append("E")
+            else:
+                break                                  # function left open: nothing may follow (no nested add_func)
+        else:
+            if rng.random() < 0.3:
+                consts(rng.randrange(1, 4), "gggl")    # after the last function
+        cases.append("cc %s %s" % (rng.choice(("x86", "a64")), " ".join(items)))
     return cases
 
 
 def replay(data):
     ops = data["replay"].get("ops", [])
     h = vlib.build_harness("c19")
+    if ops and ops[0].startswith("cc "):
+        ci, cm, cb = judge_compile_all(h, ops)
+        for o, r, m in zip(ops, ci, cm):
+            print(o, "->", r, "\n   model:", m)
+        for c, t in cb:
+            print("verdict:", t)
+        return 1 if cb else 0
     impl, bad, crashed = judge(h, ops)
     for o, r in zip(ops, impl):
         print(o, "->", r)
